@@ -793,7 +793,8 @@ def dose_info_from_records(td: TextDen, records, amt="AMT"):
 
 
 # =========================================================================================== model vs model
-def compare_models(a: IRDen, b: IRDen, records, rng, K, c, prefix="", rename=None, compare_field=True, targets=None):
+def compare_models(a: IRDen, b: IRDen, records, rng, K, c, prefix="", rename=None, compare_field=True, targets=None,
+                   extra_targets=()):
     """Sampled equivalence of two in-memory models (refactoring r: a -> b).
 
     Parameters / etas / epsilons are matched by name (through `rename`: old name -> new name); a parameter that
@@ -805,7 +806,7 @@ def compare_models(a: IRDen, b: IRDen, records, rng, K, c, prefix="", rename=Non
 
     CTX.use_mp()
     try:
-        return _compare_models(a, b, records, rng, K, c, prefix, rename or {}, compare_field, targets)
+        return _compare_models(a, b, records, rng, K, c, prefix, rename or {}, compare_field, targets, extra_targets)
     finally:
         CTX.use_float()
 
@@ -821,7 +822,7 @@ def _names_env(ird, values_by_name, rec, t):
     return env
 
 
-def _compare_models(a, b, records, rng, K, c, prefix, rename, compare_field, targets):
+def _compare_models(a, b, records, rng, K, c, prefix, rename, compare_field, targets, extra_targets=()):
     inv = {v: k for k, v in rename.items()}
     has_ode = a.cs is not None and b.cs is not None
     if compare_field and (a.cs is None) != (b.cs is None):
@@ -832,7 +833,7 @@ def _compare_models(a, b, records, rng, K, c, prefix, rename, compare_field, tar
             raise Mismatch(f"compartments differ: {a.cnames} vs {b.cnames}")
     tg = targets
     if tg is None:
-        tg = ["F"]
+        tg = ["F"] + [x for x in extra_targets if x != "F"]
         # the dependent variables are matched by position (a refactoring may legitimately rename the symbol that
         # carries the observation, e.g. cleanup_model turning 'Y = F' into the dependent variable F)
         dv_pairs = list(zip(list(a.dv_map), list(b.dv_map)))
